@@ -158,15 +158,23 @@ class Session(object):
         n_aux = len(self.aux.list_of_points)
         n_f = len(self.f.list_of_points)
         G, V = self.sum.oracle(x)
+        # the real run: ONE (sub)gradient of f at x is picked, f_aux answers its gradient, the sum answers their sum; which of
+        # the three objects are fresh leaves and which are written as the remainder of the others is the library's business:
+        # every fresh leaf is bound to its real value, the others follow
+        g_real = self.member.grad(xv, self.rng)
         for (px, pg, pv) in self.aux.list_of_points[n_aux:]:
             if pg.get_is_leaf() and id(pg) not in self.pvals:
                 self.bind_point(pg, self.aux_Q @ self.pvalue(px))
             if pv.get_is_leaf() and id(pv) not in self.evals:
                 self.evals[id(pv)] = 0.5 * float(self.pvalue(px) @ self.aux_Q @ self.pvalue(px))
-        g_real = self.member.grad(xv, self.rng)
         if len(self.f.list_of_points) == n_f:
             # f already held a sample at x (differentiable: reused): the sum is determined by its terms
             return
+        for (px, pg, pv) in self.f.list_of_points[n_f:]:
+            if pg.get_is_leaf() and id(pg) not in self.pvals:
+                self.bind_point(pg, g_real)
+            if pv.get_is_leaf() and id(pv) not in self.evals:
+                self.evals[id(pv)] = self.member.value(xv)
         if G.get_is_leaf() and id(G) not in self.pvals:
             self.bind_point(G, self.aux_Q @ xv + g_real)
         if V.get_is_leaf() and id(V) not in self.evals:
